@@ -84,9 +84,14 @@ def main():
     scratch = os.path.join(outdir, "repo-%d" % k)
     done = set()
     resf = os.path.join(outdir, "results-%d.jsonl" % k)
+    recheck = "--recheck" in sys.argv   # run again, with the current rules, the mutants that survived earlier
     if os.path.exists(resf):
-        for l in open(resf):
-            r = json.loads(l)
+        prev = [json.loads(l) for l in open(resf)]
+        if recheck:
+            keep = [r for r in prev if r["status"] != "SURVIVED"]
+            open(resf, "w").write("".join(json.dumps(r) + "\n" for r in keep))
+            prev = keep
+        for r in prev:
             done.add((r["file"], r["line"], r["op"]))
     print("worker %d: %d of %d mutants" % (k, len(mine), len(allm)), flush=True)
     known = report.load_known()
